@@ -186,7 +186,7 @@ def run(ctx):
                              on_call=lambda bb, t, args, st: method_eq(bb, t, args, st))
             vals = set()
             for p in ps2:
-                for i, e in RM.prints(p):
+                for i, e in RM.final_prints(p):
                     a = e[3][4] if len(e[3]) > 4 else None
                     vals.add(absint.const_of(a) if a is not None else None)
             res[meth] = vals
